@@ -545,17 +545,52 @@ func ruleC06Print(c *Checker) {
 					return ok && bo.Op == token.NEQ && ((isFld(bo.X, "Scheme") && isFld(bo.Y, "sourceType")) || (isFld(bo.Y, "Scheme") && isFld(bo.X, "sourceType")))
 				})
 				same := append(eqT, neF...)
-				for i, r := range returnsOf(pf) {
-					hasType := false
-					for w := range p.backSlice(r.Results[0], 0) {
-						if k, ok := constString(w); ok && k == "::" {
-							hasType = true
-						}
-					}
-					if hasType {
+				_ = same
+				// the decision may sit in a helper of String(): every module function reachable from it that
+				// mentions the "::" separator is looked at
+				var hosts []*ssa.Function
+				for g := range p.reach(pf) {
+					if !p.InModule(g) {
 						continue
 					}
-					c.check(len(same) > 0 && guarded(r.Block(), same), R, p.FuncName(pf), fmt.Sprintf("return %d without the type prefix only when scheme and type are equal", i), p.Pos(r.Pos()), "past url.Scheme == sourceType", "the 'type::' prefix is left out on a path where the URL scheme may differ from the source type (a prefix or case-insensitive test instead of equality): http::https://… prints as https://…, which parses back with another source type — two unequal packages print the same")
+					has := false
+					eachInstr(g, func(in ssa.Instruction) {
+						var ops [8]*ssa.Value
+						for _, op := range in.Operands(ops[:0]) {
+							if op != nil && *op != nil {
+								if k, ok := constString(*op); ok && k == "::" {
+									has = true
+								}
+							}
+						}
+					})
+					if has {
+						hosts = append(hosts, g)
+					}
+				}
+				sort.Slice(hosts, func(i, j int) bool { return p.FuncName(hosts[i]) < p.FuncName(hosts[j]) })
+				for _, pf := range hosts {
+					eqT, _ := condEdges(pf, func(v ssa.Value) bool {
+						bo, ok := v.(*ssa.BinOp)
+						return ok && bo.Op == token.EQL && ((isFld(bo.X, "Scheme") && isFld(bo.Y, "sourceType")) || (isFld(bo.Y, "Scheme") && isFld(bo.X, "sourceType")))
+					})
+					_, neF := condEdges(pf, func(v ssa.Value) bool {
+						bo, ok := v.(*ssa.BinOp)
+						return ok && bo.Op == token.NEQ && ((isFld(bo.X, "Scheme") && isFld(bo.Y, "sourceType")) || (isFld(bo.Y, "Scheme") && isFld(bo.X, "sourceType")))
+					})
+					same := append(eqT, neF...)
+					for i, r := range returnsOf(pf) {
+						hasType := false
+						for w := range p.backSlice(r.Results[0], 0) {
+							if k, ok := constString(w); ok && k == "::" {
+								hasType = true
+							}
+						}
+						if hasType {
+							continue
+						}
+						c.check(len(same) > 0 && guarded(r.Block(), same), R, p.FuncName(pf), fmt.Sprintf("return %d without the type prefix only when scheme and type are equal", i), p.Pos(r.Pos()), "past url.Scheme == sourceType", "the 'type::' prefix is left out on a path where the URL scheme may differ from the source type (a prefix or case-insensitive test instead of equality): http::https://… prints as https://…, which parses back with another source type — two unequal packages print the same")
+					}
 				}
 			}
 		}
@@ -1639,7 +1674,6 @@ func ruleC06Version(c *Checker, R string) {
 		}
 	}
 }
-
 
 // wrapsParseVersion: a module function (string) (Version, error) every
 // non-error result of which is the result of versions.ParseVersion on its
